@@ -22,10 +22,28 @@ from checks import dp_common as D
 PROP = "C07"
 
 
+def shared_tree_prelude(case, inp):
+    """History for inputs flagged 'shared': another input built on the SAME tree objects (and the same ancestry structure) with the leaf
+    assignment rotated is reconciled first - what a program looping over assignments on one pair of trees does."""
+    import dataclasses
+    if not case.desc.get("shared"):
+        return
+    leaves = sorted(inp.leaf_object_species, key=lambda n: n.name)
+    targets = [inp.leaf_object_species[l] for l in leaves]
+    sib = dataclasses.replace(inp, leaf_object_species=dict(zip(leaves, targets[1:] + targets[:1])))
+    with H.quiet():
+        try:
+            D.reconcile_lca(sib)
+            list(D.reconcile_thl(sib, D.POLICY["any"]))
+        except Exception:
+            pass
+
+
 def concrete_failures(desc, costs):
     case = H.Case(desc)
     orc = D.Oracle(case)
     inp = case.build(costs)
+    shared_tree_prelude(case, inp)
     fails = []
     out = D.run_algo("lca", inp, "any")[0]
     lm = RC.lca_mapping(case.O, case.S, case.leafmap)
@@ -91,6 +109,7 @@ def worker(item):
         ctx, costs = H.cost_ctx(["spe", "dup", "floss"], fixed={"hgt": inf, "sloss": 1}, coherent=False, max_paths=item["max_paths"], budget_s=item["budget_s"])
         ctx.solver.add(ctx.z(costs["spe"]) <= ctx.z(costs["dup"]))
         inp = case.build(costs)
+        shared_tree_prelude(case, inp)
         lm = RC.lca_mapping(case.O, case.S, case.leafmap)
         dl = [r for r in orc.recs if r[1][2] == 0]
         for _ in ctx.paths():
@@ -157,6 +176,7 @@ def main(argv=None):
     smp = [D.random_plain_input(rng, rng.randint(4, 5), rng.randint(3, 5)) for _ in range(250 if q else 600)]
     # the same question on trees whose ancestors carry no name (the documented input format allows it; the LCA is about nodes, not names)
     ex += [dict(d, unnamed=True) for d in D.plain_inputs(range(2, 5), range(2, 4 if q else 5))]
+    ex += [dict(d, shared=True) for d in D.plain_inputs(range(2, 4 if q else 5), range(2, 4))]
     smp += [dict(D.random_plain_input(rng, rng.randint(4, 5), rng.randint(4, 5)), unnamed=True) for _ in range(80 if q else 300)]
     big = [D.random_plain_input(rng, rng.randint(6, 8), rng.randint(3, 6)) for _ in range(0 if q else 40)]
     mk = lambda d: {"desc": d, "max_paths": 5000 if q else 30000, "budget_s": 200.0 if q else 900.0}
@@ -170,6 +190,7 @@ def main(argv=None):
     rep.bounds = {"exhaustive": f"every input with 1-4 object leaves x 1-{3 if q else 4} species leaves (plane shapes, every leaf assignment)",
                   "sampled": f"{len(smp)} seeded inputs with 4-5 object leaves, 2-5 species leaves" + ("" if q else "; 40 seeded inputs with 6-8 object leaves (oracle enumeration still exhaustive per input)"),
                   "naming": "every exhaustive input also with all ancestors of both trees unnamed (solutions read back by pre-order position) + seeded unnamed 4-5-leaf inputs",
+                  "history": "every 2-3-leaf (thorough: 2-4-leaf) input also after a sibling input sharing the same tree objects (leaf assignment rotated) was reconciled",
                   "costs": "dup, floss: all non-negative integers; spe: all integers with 0 <= spe <= dup; hgt = infinity.inf (transfers forbidden)"}
     rep.assumptions = ["oracle engine/oracles/recon.py", "z3 linear integer arithmetic"]
     rep.stubs = H.STUBS
